@@ -164,8 +164,8 @@ Section Filter.
       match index LPAREN s, rindex RPAREN s with
       | Some l, Some r =>
         let l := N.of_nat l in let r := N.of_nat r in
-        let ln := sub64 (sub64 r l) 1 in                        (* size_t len = right - left - 1 *)
-        if (ln =? 0) || (s_st_comm_limit c <=? ln) then Ok (inl AncError) else
+        let ln := sub64 (sub64 r l) 1 in                        (* size_t len = right - left - 1; rejected when  len <= 0  (older form)  or  right < left *)
+        if (if s_st_empty_ok c then r <? l else ln =? 0) || (s_st_comm_limit c <=? ln) then Ok (inl AncError) else
         (* memcpy(st_comm_buf, left + 1, len); st_comm_buf[len] = '\0' *)
         let comm_src := takeS ln (dropN (l + 1) s) in
         _ <- (if l + 1 + ln <=? len s + 1 then Ok tt else Fault OOB_read) ;;
